@@ -396,6 +396,12 @@ fn must_report(r: &Res, f: &Res, what: &str) -> Result<(), String> {
             if !items.iter().any(|i| i.is_err()) {
                 return Err(format!("{what}, but the iterator yielded no Err: {} [fault-free: {}]", show(r), show(f)));
             }
+            // an error item that the intact input produces as well (a document that fails at the
+            // type level) is not a report of the fault: a result that is a proper prefix of the
+            // fault-free items has silently lost the documents behind it
+            if items.len() < fi.len() && items.iter().zip(fi).all(|(a, b)| a == b) {
+                return Err(format!("{what}, but the iterator ended early without an Err for it: {} [fault-free: {}]", show(r), show(f)));
+            }
             let (a, b) = (oks(items), oks(fi));
             if a.len() > b.len() || a.iter().zip(&b).any(|(x, y)| x != y) {
                 return Err(format!(
@@ -962,6 +968,11 @@ fn documents() -> Vec<(String, Vec<Target>)> {
     add("a\n---\n~\n---\nb\n", &[U]);
     add("a\n---\n---\nb\n", &[U]);
     add("- 1\n- 2\n---\n- 3\n", &[U, VecI]);
+    // a document that fails at the type level near its start: the iterator skips the rest of it
+    // (a fault met while skipping must surface as well)
+    add("a: x\nb: 2\nc: 3\nd: 4\n---\na: 2\n---\na: 3\n", &[Rec]);
+    add("- x\n- 2\n- 3\n---\n- 4\n", &[VecI]);
+    add("a: 1\n---\na: [1]\nb: 2\nc: 3\n---\na: 5\n", &[Rec]);
     add("x: 1\nx: 2\n---\ny: 3\n", &[U]);
     add("a: 1\n---\n]\n---\nc: 3\n", &[U]);
     add("%YAML 1.2\n---\na: 1\n", &[U, Rec]);
@@ -1614,6 +1625,7 @@ impl Property for C10 {
                         };
                         let mut plans: Vec<WFaultAt> = (0..=ncalls_s.min(if thorough { 4000 } else { 400 })).map(WFaultAt::Call).collect();
                         plans.extend((0..=nbytes).map(WFaultAt::Bytes));
+                        plans.extend((0..=ncalls_s.min(if thorough { 4000 } else { 400 })).map(WFaultAt::CallOnce));
                         for (pi, at) in plans.iter().enumerate() {
                             n_wpos += 1;
                             // all modes for the default options, one rotating mode otherwise
@@ -1624,7 +1636,7 @@ impl Property for C10 {
                                     continue;
                                 }
                                 let reached = match at {
-                                    WFaultAt::Call(n) => *n < ncalls_s && *n > 0,
+                                    WFaultAt::Call(n) | WFaultAt::CallOnce(n) => *n < ncalls_s && *n > 0,
                                     WFaultAt::Bytes(k) => *k < nbytes && *k > 0,
                                 };
                                 let c = Case::Write { val: val.clone(), opts: opts.clone(), with_options, short, fault: WriteFault { at: *at, mode } };
